@@ -23,6 +23,8 @@ pub trait StackT: Any {
     /// copy / extend with the allocator calls of the stack's own operation (the shadow region and the
     /// decoding of the JSON value are outside the measured section)
     fn copy_measured(&mut self, v: &Value) -> u64;
+    /// `FlatStack::capacity()` - offered by stacks with the default `Vec` index storage only
+    fn index_capacity(&self) -> Option<usize>;
     fn extend_measured(&mut self, vs: &[Value]) -> u64;
     fn from_iter(&self, vs: &[Value]) -> Box<dyn StackT>;
     fn with_capacity(&self, n: usize) -> Box<dyn StackT>;
@@ -98,6 +100,9 @@ where
         for o in &os {
             let _ = self.shadow.push(o);
         }
+    }
+    fn index_capacity(&self) -> Option<usize> {
+        (&self.st as &dyn Any).downcast_ref::<FlatStack<R, Vec<R::Index>>>().map(|fs| fs.capacity())
     }
     fn copy_measured(&mut self, v: &Value) -> u64 {
         let o = R::Owned::from_json(v);
